@@ -27,6 +27,7 @@ type FuncReport struct {
 	Trusted     bool
 	Props       []string
 	s           *Script
+	facts       []factRec
 	paramSyms   []string
 	IntMode     string
 	Instrs      int
@@ -117,11 +118,11 @@ func (w *World) verifyFunc(fn *ssa.Function, c *FuncContract) (rep *FuncReport) 
 	fr.entry = st.clone()
 	env := &SpecEnv{e: e, cur: st, old: fr.entry, vars: map[string]*Val{}, pkg: funcPkgPath(fn), fr: fr}
 	for _, cl := range c.Requires {
-		e.assume(st, e.evalBool(cl.E, env))
+		e.specAssume(st, cl.E, env)
 	}
 	e.flush(st)
 	// vacuity: the precondition must be satisfiable
-	e.obls = append(e.obls, &Obligation{Name: e.fnName + "/vacuity", Kind: "vacuity", Hyp: st.reach, Goal: "", ExpectSat: true, Props: c.Props, Fn: e.fnName, Desc: "requires are satisfiable"})
+	e.obls = append(e.obls, &Obligation{Name: e.fnName + "/vacuity", Kind: "vacuity", Hyp: st.reach, NFacts: len(e.facts), Goal: "", ExpectSat: true, Props: c.Props, Fn: e.fnName, Desc: "requires are satisfiable"})
 	fr.entry.reach = st.reach
 	final, res := e.runBody(fr, st.clone())
 	e.flush(final)
@@ -130,17 +131,17 @@ func (w *World) verifyFunc(fn *ssa.Function, c *FuncContract) (rep *FuncReport) 
 		e.bindResults(vars, res, fn.Signature)
 		penv := &SpecEnv{e: e, cur: final, old: fr.entry, vars: vars, pkg: funcPkgPath(fn), fr: fr}
 		for _, cl := range c.Ensures {
-			g := e.evalBool(cl.E, penv)
 			if cl.Free {
 				continue
 			}
 			st2 := final.clone()
-			e.oblige(st2, "post", g, cl.Src, cl.Props)
+			e.specOblige(st2, "post", cl.E, penv, cl.Src, cl.Props)
 		}
 		e.frameObligations(fr, final, c, penv)
 	}
 	rep.Status = "ok"
 	rep.Obls = e.obls
+	rep.facts = e.facts
 	return rep
 }
 
@@ -173,19 +174,46 @@ func runObligations(reps []*FuncReport, cfg runCfg) {
 			defer wg.Done()
 			for j := range ch {
 				o := j.o
-				var q string
-				if o.ExpectSat {
-					q = j.rep.s.Query([]string{o.Hyp}, "", nil)
-				} else {
-					q = j.rep.s.Query([]string{o.Hyp}, o.Goal, nil)
-				}
-				o.Query = q
 				tag := regexp.MustCompile(`[^A-Za-z0-9_.-]`).ReplaceAllString(o.Name, "_")
 				if len(tag) > 120 {
 					tag = tag[:120]
 				}
-				// stage 1: the two z3 versions; stage 2 adds cvc5 on no answer
-				res := Solve(q, cfg.timeout, cfg.seed, cfg.tmp, tag, []int{0, 1, 2})
+				facts := j.rep.facts[:o.NFacts]
+				full := []string{o.Hyp}
+				for _, f := range facts {
+					full = append(full, implies(f.guard, f.f))
+				}
+				var res SolveResult
+				if o.ExpectSat {
+					o.Query = j.rep.s.Query(full, "", nil)
+					res = Solve(o.Query, cfg.timeout, cfg.seed, cfg.tmp, tag, []int{0, 1, 2})
+				} else {
+					// first attempt: hypotheses sliced by relevance (sound: dropping hypotheses
+					// can only make a proof harder); fall back to the full set
+					sl := j.rep.s.sliceFacts(o.Hyp, o.Goal, facts)
+					done := false
+					if len(sl) < len(facts) {
+						hy := []string{o.Hyp}
+						for _, f := range sl {
+							hy = append(hy, implies(f.guard, f.f))
+						}
+						q := j.rep.s.Query(hy, o.Goal, nil)
+						t1 := cfg.timeout
+						if t1 > 8 {
+							t1 = 8
+						}
+						res = Solve(q, t1, cfg.seed, cfg.tmp, tag+".s", []int{0, 1, 2})
+						if res.Status == "unsat" {
+							done = true
+							o.Sliced = true
+							o.Query = q
+						}
+					}
+					if !done {
+						o.Query = j.rep.s.Query(full, o.Goal, nil)
+						res = Solve(o.Query, cfg.timeout, cfg.seed, cfg.tmp, tag, []int{0, 1, 2})
+					}
+				}
 				o.Result = res
 			}
 		}()
@@ -395,7 +423,7 @@ func cmdCheck(args []string) int {
 		if !o.replayConfirmed {
 			suffix = " no-failing-input-found"
 		}
-		fmt.Printf("VIOLATION property=%s replay=%s obligation=%s status=%s%s\n", pid, rp, o.Name, o.Result.Status, suffix)
+		fmt.Printf("VIOLATION property=%s replay=%s obligation=%s status=%s clause=%q%s\n", pid, rp, o.Name, o.Result.Status, o.Desc, suffix)
 		if *dumpDir != "" {
 			os.MkdirAll(*dumpDir, 0o755)
 			tag := regexp.MustCompile(`[^A-Za-z0-9_.-]`).ReplaceAllString(o.Name, "_")
